@@ -62,13 +62,16 @@ UniqueIds(t) == \A i, j \in DOMAIN t : i # j => t[i].v["id"] # t[j].v["id"]
 Keyed(L) ==
   LET pure == {t \in TuplesUpTo(KeyedMembers, L) : UniqueIds(t)}
   IN  {Arr(t) : t \in pure} \cup {Arr(Append(t, N1)) : t \in {u \in pure : Len(u) < L}}
+(* keyed members whose key value is null, next to members of the same shape (the domain of SetKeys is respected: *)
+(* every member carries the key; members lacking it appear only in perturbed targets)                            *)
+KeyedNull == {Arr(t) : t \in {u \in TuplesUpTo({KObj(Null, N1), KObj(Null, N2), KObj(N1, N1), KObj(N1, N2)}, 2) : UniqueIds(u)}}
 KeyedDeep ==
   {Arr(<<O2("id", N1, "v", x), O2("id", N2, "v", y)>>) :
      x \in {N1, Arr(<<N1>>), Arr(<<N1, N2>>), O1("k0", N1)}, y \in {N1, Arr(<<N2>>), O1("k0", N2)}}
 
 (* objects whose keys are hostile to JSON Pointer (C09, C10, C18): e0, e1 need escaping, em is the   *)
 (* empty key, n1 is "1", dash is "-", w0 is "01" (see KeyClass in JsonPatch.tla)                        *)
-PtrKeys == {"k0", "e0", "e1", "em", "n1", "dash", "w0"}
+PtrKeys == {"k0", "e0", "e1", "em", "n1", "dash", "w0", "f0", "f1"}      \* f0, f1: keys that are float but not integer literals ("1.5", "1e0")
 PtrVals == {N1, EmptyArr, Arr(<<N1, N2>>), O1("e0", N1)}
 ObjPtr == UNION { {Obj(f) : f \in [D -> PtrVals]} : D \in {S \in SUBSET PtrKeys : Cardinality(S) <= 2} }
 PtrDeep == {O1(key, Arr(t)) : key \in {"e0", "em", "k0"}, t \in TuplesUpTo({N1, N2, O1("e1", N1)}, 3)}
@@ -106,6 +109,10 @@ YamlDocs ==
 
 (* string-to-string changes (character-level colour diff, escaping) *)
 StrDocs == ObjFam(2, {S0, S1, Str("sA"), N1}) \cup {Arr(t) : t \in TuplesUpTo({S0, S1, Str("sA")}, 2)}
+
+(* merge-mode pairs whose hunks write an object that has a null member (values a merge hunk shares with b) *)
+MergeNull == {EmptyObj, O1("k1", N1), O1("k0", O2("k0", Null, "k1", N1)), O2("k0", O2("k0", Null, "k1", N1), "k1", N1),
+              O1("k0", O1("k1", O2("k0", Null, "k2", S0))), O2("k0", Arr(<<Null, N1>>), "k1", O1("k0", Null))}
 
 (* type-confusable values for the equality oracle (C04) *)
 Confusable ==
